@@ -21,7 +21,7 @@ from typing import Dict, List, Optional, Set, Tuple
 from .cfg import CFG
 
 MUTATOR_METHODS = {"pop", "append", "extend", "insert", "remove", "clear", "sort", "update", "setdefault", "popitem"}
-NORM_FUNCS = {"array", "asarray", "atleast_1d", "list", "tuple", "repeat"}
+NORM_FUNCS = {"array", "asarray", "atleast_1d", "list", "tuple", "repeat", "ravel"}
 NORM_METHODS = {"flatten", "ravel", "tolist", "copy", "astype"}
 
 
@@ -262,22 +262,36 @@ class Resolver:
         return False
 
 
+MODULE_ALIASES = {"numpy", "np", "math"}
+
+
+def _norm_step(t: ast.AST):
+    """One normalisation operator at the top of `t`: (name, call, inner term) or None."""
+    if isinstance(t, ast.Call) and not is_sym(t):
+        fn = t.func
+        if isinstance(fn, ast.Attribute):
+            is_module = isinstance(fn.value, ast.Name) and fn.value.id in MODULE_ALIASES
+            if not is_module and fn.attr in NORM_METHODS:
+                return fn.attr, t, fn.value
+            if is_module and fn.attr in NORM_FUNCS and t.args:
+                return fn.attr, t, t.args[0]
+            return None
+        if isinstance(fn, ast.Name) and fn.id in NORM_FUNCS and t.args:
+            return fn.id, t, t.args[0]
+    return None
+
+
+
 def strip_norm(t: ast.AST) -> ast.AST:
     """Strip the repo's sequence normalisation idiom: array(x), x.flatten(..), repeat(x, n), list(x), §norm(x)."""
     while True:
         if is_sym(t, "norm"):
             t = t.args[0]
             continue
-        if isinstance(t, ast.Call):
-            fn = t.func
-            if isinstance(fn, ast.Attribute) and fn.attr in NORM_METHODS:
-                t = fn.value
-                continue
-            fname = fn.attr if isinstance(fn, ast.Attribute) else getattr(fn, "id", "")
-            if fname in NORM_FUNCS and t.args:
-                t = t.args[0]
-                continue
-        return t
+        st = _norm_step(t)
+        if st is None:
+            return t
+        t = st[2]
 
 
 def norm_ops(t: ast.AST) -> List[Tuple[str, ast.Call]]:
@@ -287,18 +301,11 @@ def norm_ops(t: ast.AST) -> List[Tuple[str, ast.Call]]:
         if is_sym(t, "norm"):
             t = t.args[0]
             continue
-        if isinstance(t, ast.Call):
-            fn = t.func
-            if isinstance(fn, ast.Attribute) and fn.attr in NORM_METHODS:
-                ops.append((fn.attr, t))
-                t = fn.value
-                continue
-            fname = fn.attr if isinstance(fn, ast.Attribute) else getattr(fn, "id", "")
-            if fname in NORM_FUNCS and t.args:
-                ops.append((fname, t))
-                t = t.args[0]
-                continue
-        return ops
+        st = _norm_step(t)
+        if st is None:
+            return ops
+        ops.append((st[0], st[1]))
+        t = st[2]
 
 
 def walk_terms(t: ast.AST):
@@ -326,15 +333,21 @@ def norm_chains(t: ast.AST) -> List[List[Tuple[str, ast.Call]]]:
         if is_sym(cur, "norm"):
             tails = norm_chains(cur)
             return [ops + tail for tail in tails]
-        if isinstance(cur, ast.Call):
-            fn = cur.func
-            if isinstance(fn, ast.Attribute) and fn.attr in NORM_METHODS:
-                ops.append((fn.attr, cur))
-                cur = fn.value
-                continue
-            fname = fn.attr if isinstance(fn, ast.Attribute) else getattr(fn, "id", "")
-            if fname in NORM_FUNCS and cur.args:
-                ops.append((fname, cur))
-                cur = cur.args[0]
-                continue
-        return [ops]
+        st = _norm_step(cur)
+        if st is None:
+            return [ops]
+        ops.append((st[0], st[1]))
+        cur = st[2]
+
+
+def flatten_order(name: str, call: ast.Call):
+    """Order argument of x.flatten(o) / x.ravel(o) / numpy.ravel(x, o); None = default (row-major)."""
+    method_form = isinstance(call.func, ast.Attribute) and not (isinstance(call.func.value, ast.Name) and call.func.value.id in ("numpy", "np"))
+    args = call.args if method_form else call.args[1:]
+    order = None
+    if args and isinstance(args[0], ast.Constant):
+        order = args[0].value
+    for kw in call.keywords:
+        if kw.arg == "order" and isinstance(kw.value, ast.Constant):
+            order = kw.value.value
+    return order
